@@ -228,7 +228,16 @@ def eval_case_file(path):
         if body:
             idx = [int(x) for x in re.findall(r"(\d+)(?:%nat)?", body)]
             mism.append((int(m.group(1)), idx))
-    return True, mism, out if chunks == 0 else "chunks=%d" % chunks
+    # every `Print M_k.` of the file must have produced a list this parser recognised: a block it misses would
+    # otherwise read as "no mismatch"
+    try:
+        with open(path) as f:
+            expected = len(re.findall(r"^Print M_\d+\.", f.read(), re.M))
+    except OSError:
+        expected = -1
+    if chunks != expected or expected <= 0:
+        return False, [], "printed mismatch lists recognised: %d, `Print M_k.` commands in the file: %d\n%s" % (chunks, expected, out[-600:])
+    return True, mism, "chunks=%d" % chunks
 
 
 # ---------------------------------------------------------------- known findings
